@@ -187,6 +187,8 @@ class SshHostKeyDSSBase(SshHostKeyBase):
     def _parse_host_key(cls, parser):
         for param_name in ['p', 'q', 'g', 'y']:
             parser.parse_ssh_mpint(param_name)
+            if parser[param_name] <= 0:
+                raise InvalidValue(parser[param_name], cls, param_name)
 
         public_key = PublicKey.from_params(PublicKeyParamsDsa(
             prime=parser['p'],
